@@ -17,6 +17,8 @@ func init() {
 	core.Register(&core.Check{
 		ID:    "C15",
 		Level: "fault_enumeration",
+		// generous internal deadline: the run takes 1-2 minutes on an idle machine and several times that next to other jobs
+		QuickBudget: 900,
 		Rule: "all function bodies of <=4 statements over the full alphabet and of 5 over a reduced one (thorough: <=5 over the full alphabet) statements over {print, value, defer, guarded defer true/false, return, guarded return true/false, raise, raise of nil / guarded raise of an int (a raise of something that is not an error ends the body like return), " +
 			"failing call, call of a function with its own defers, deferred expression that raises, defer/return whose guard expression raises, a list chain whose block fails with StopIterErr} plus iterator bodies with yield, each run in 7 contexts (direct call, called from a body with its own defer, three nested levels with several defers, as a method, per element of a list chain whose literal has its own defer, inside a try step, iterator next); " +
 			"stdout markers and outcome compared with a defer model; non-trivial = body contains a defer and an exit or a failing statement; distinct = distinct (body, context)",
